@@ -140,7 +140,7 @@ def run(prog: Program, res: Result) -> None:  # noqa: PLR0912, PLR0915
         raise AnalysisError("extract_from_template visitors vanished")
 
     # ------------------------------------------------------------------ R1 traversal
-    res.rule("C15.R1", "the extraction visitor reaches every node (children(include_partials=False)), every expression (expressions()) and every sub-expression (children()); the filter extractor reads filters, left and alternative")
+    res.rule("C15.R1", "the extraction visitor reaches every node (children(include_partials=False)), every expression (expressions()) and every sub-expression (children()); the filter extractor reads every filter-bearing attribute of (ternary) filtered expressions (filters, tail_filters, left, alternative - read off the constructors)")
     checks = [
         (eft, "for node in template.nodes", lambda f: any(isinstance(l, ast.For) and norm(l.iter) == "template.nodes" for l in f.node.body)),
         (eft, "top-level: node.expressions() then visit(node)", lambda f: "node.expressions()" in norm(f.node, 20000).split("def visit(")[-1] and "visit(node)" in norm(f.node, 20000)),
@@ -160,7 +160,22 @@ def run(prog: Program, res: Result) -> None:  # noqa: PLR0912, PLR0915
     if eff is None:
         raise AnalysisError("_extract_from_filters vanished")
     read = {a.attr for a in ast.walk(eff.node) if isinstance(a, ast.Attribute) and isinstance(a.value, ast.Name) and a.value.id == "expression"}
-    for attr in ("filters", "left", "alternative"):
+    # the attributes to cover are read off the two classes: every constructor parameter that holds filters
+    # (annotation mentions Filter) or an operand a first filter can be applied to (left / alternative)
+    ex_mod = prog.mod("liquid2/builtin/expressions.py")
+    need_attrs: set[str] = set()
+    for cname in ("FilteredExpression", "TernaryFilteredExpression"):
+        ci_ = ex_mod.classes.get(cname)
+        init_ = ci_.methods.get("__init__") if ci_ is not None else None
+        if init_ is None:
+            raise AnalysisError(f"{cname}.__init__ vanished")
+        a_ = init_.node.args
+        for p_ in a_.posonlyargs + a_.args + a_.kwonlyargs:
+            ann = norm(p_.annotation) if p_.annotation is not None else ""
+            if "Filter]" in ann or p_.arg in ("left", "alternative"):
+                need_attrs.add(p_.arg)
+    res.floor("C15.R1", "filter-bearing attributes of filtered expressions", len(need_attrs), 4)
+    for attr in sorted(need_attrs):
         what = f"_extract_from_filters reads expression.{attr}"
         if attr in read:
             res.ok("C15.R1", f"{eff.file}:{eff.node.lineno} _extract_from_filters", what, "read")
@@ -182,6 +197,26 @@ def run(prog: Program, res: Result) -> None:  # noqa: PLR0912, PLR0915
                 else:
                     res.fail("C15.R1", file=target.file, line=target.node.lineno, qualname=target.name, construct=f"{target.name} has no message()", message=f"translation filter {name} performs catalog lookups but has no extractor", what=what)
     res.floor("C15.R1", "translatable filters registered", n_tf, 5)
+    # R6: the extractor twins bind arguments like the call does
+    res.rule("C15.R6", "message() of a translation filter takes its operands from the positional arguments only (the call is func(left, *positional, **keywords)): no constant index into the filter's mixed argument list, where a keyword argument written first would be taken for the plural or the context")
+    n_msg = 0
+    for name, regs in filters.items():
+        for _n, target, _v, _m in regs:
+            if not (isinstance(target, ClassInfo) and isinstance(tf, ClassInfo) and prog.is_subclass(target, tf)):
+                continue
+            m = prog.find_method(target, "message")
+            if m is None or m.cls is None or m.cls.full == tf.full:
+                continue
+            n_msg += 1
+            fparam = next((p for p in m.params() if "filter" in p), "_filter")
+            raw = [s_ for s_ in ast.walk(m.node) if isinstance(s_, ast.Subscript) and norm(s_.value) == f"{fparam}.args" and not isinstance(s_.slice, ast.Slice)]
+            site = f"{m.file}:{m.node.lineno} {target.name}.message"
+            what = f"{target.name}.message binds operands from the positional arguments"
+            if raw:
+                res.fail("C15.R6", file=m.file, line=raw[0].lineno, qualname=f"{target.name}.message", construct=f"{target.name}.message indexes {fparam}.args", message=f"{target.name}.message reads `{norm(raw[0])}` from the mixed positional/keyword argument list: with a keyword argument written before the positional ones the extracted plural / context is that keyword's value, while the render binds the positional argument", what=what)
+            else:
+                res.ok("C15.R6", site, what, "no index into the mixed list")
+    res.floor("C15.R6", "message() implementations", n_msg, 4)
 
     # ------------------------------------------------------------------ R2 family selectors
     res.rule("C15.R2", "the gettext family chosen at run time depends only on presence tests the extractor can mirror (plural form / context present), never on the truth value of a count; when a plural form is present a count is always available")
